@@ -207,7 +207,6 @@ package route
 //@ assume route.recycleHTTPBodyBuffer
 // Payload construction and decoding allocate and fill new objects only (assumed frames).
 //@ assume types.NewPayload
-//@ assume types.NewCoreFieldsUnmarshaler
 //@ assume types.CoreFieldsUnmarshaler.UnmarshalMsgpEventMetadataOnly
 //@   modifies *payload
 
@@ -242,3 +241,9 @@ package route
 //@ contract route.(*batchedEvent).getSampleRate inline
 //@ assume route.(*Router).requestToEvent
 //@   ensures result1 == nil ==> result0 != nil && owns(result0) && isFresh(result0)
+
+// ---- C28: the last line of defence. Whatever value a handler panics with, the recovery code answers the
+// request with the error writer and does not itself panic (handlerReturnWithError needs an error to print:
+// ErrCaughtPanic carries none, so the recovered value must be turned into one).
+//@ contract route.(*Router).panicCatcher$lit2 props C28 havoc
+//@   requires r != nil
